@@ -16,8 +16,20 @@ import json
 import os
 import re
 import shutil
+import signal
 
 import common
+
+CASE_LIMIT_S = 10.0      # wall-clock limit of one `doit` invocation: a clean that does not come back is an observable
+
+
+class CaseTimeout(BaseException):
+    """not an Exception: DoitMain.run swallows those"""
+
+
+def _on_alarm(signum, frame):
+    raise CaseTimeout()
+
 
 KINDS = ['none', 'targets', 'act', 'actdry']
 DBNAME = {'json': 'db.json', 'dbm': 'db.dbm', 'sqlite3': 'db.sqlite'}
@@ -170,19 +182,22 @@ def read_db(backend, path, labels):
 
 def invocations(events):
     """the Task.clean invocations that can be seen in an event list: a new one starts at every `executing`
-    (one action per task), when the task changes, or when the paths of a `clean: True` task stop descending"""
-    order, last_path = [], None
+    (one action per task), when the task changes, or when a `clean: True` task reports a path a second time
+    (one invocation visits each target once; the order inside an invocation is not assumed here)"""
+    order, seen = [], set()
     for e in events:
         if e[0] == 'ran':
             continue
         if e[0] == 'executing':
             order.append(e[1])
-            last_path = None
+            seen = set()
         else:
-            if not order or order[-1] != e[1] or last_path is None or not (e[2] < last_path):
+            if not order or order[-1] != e[1] or e[2] in seen:
                 order.append(e[1])
-            last_path = e[2]
+                seen = set()
+            seen.add(e[2])
     return order
+
 
 LINE = re.compile(r"^(.*?) - (executing|removing file|removing dir|cannot remove \(it is not empty\)) '(.*)'$")
 
@@ -207,7 +222,9 @@ def run_impl(case):
     root = common.scratch_dir('c14')
     old = os.getcwd()
     obs = {}
+    old_handler = signal.signal(signal.SIGALRM, _on_alarm)
     try:
+        signal.setitimer(signal.ITIMER_REAL, 2 * CASE_LIMIT_S)
         os.mkdir(os.path.join(root, 'w'))
         os.chdir(os.path.join(root, 'w'))
         dbpath = os.path.join(root, DBNAME[case['backend']])
@@ -290,9 +307,13 @@ def run_impl(case):
         db1 = read_db(case['backend'], dbpath, labels)
         obs['db'] = sorted(db1)
         obs['db_survivors_intact'] = all(db1[k] == db0.get(k) for k in db1)
+    except CaseTimeout:
+        obs['outcome'] = 'timeout'
     except Exception as ex:  # noqa  -- a crash of doit outside DoitMain's own handling is data
         obs['outcome'] = 'exc:' + type(ex).__name__ + ':' + str(ex)[:100]
     finally:
+        signal.setitimer(signal.ITIMER_REAL, 0)
+        signal.signal(signal.SIGALRM, old_handler)
         os.chdir(old)
         shutil.rmtree(root, ignore_errors=True)
     return obs
@@ -341,6 +362,8 @@ def compare(case, obs, ans):
 def monitor(case, obs, ans):
     """(P): the property statement on the implementation's behaviour.  Returns list of failed clauses."""
     failed = []
+    if obs.get('outcome') == 'timeout':
+        return ['`doit clean` (or the preceding `doit run`) did not come back within %d s' % int(2 * CASE_LIMIT_S)]
     if obs.get('outcome') != 'ok':
         # the property speaks about successful clean invocations; a refusal must at least leave everything alone
         if obs.get('files0') is not None and (obs.get('files') != obs.get('files0') or obs.get('dirs') != obs.get('dirs0')
